@@ -174,6 +174,11 @@ pub enum BlockR {
     NearMultiple(Vec<u64>, i8),
     Uniform(u64),
     Lit(Vec<u8>),
+    /// a two-part block hi * 2^(8 low) + lo whose LOW part is j*p + d (clipped to its width): every way of
+    /// splitting the block for a two-step reduction sees a low part at / around a small multiple of the modulus;
+    /// d = sign * (2^k + e) sweeps the distance to the multiple over all magnitudes.
+    /// (low_sel: which split; hi_kind 0: seeded, 1: zero, 2: all ones)
+    SplitNearMultiple { low_sel: u8, j: u8, k: u16, e: i8, neg: bool, hi_kind: u8, seed: u64 },
 }
 
 fn block_strategy() -> BoxedStrategy<BlockR> {
@@ -183,6 +188,8 @@ fn block_strategy() -> BoxedStrategy<BlockR> {
         4 => (proptest::collection::vec(any::<u64>(), 0..3), -2i8..=2).prop_map(|(m, d)| BlockR::NearMultiple(m, d)),
         6 => any::<u64>().prop_map(BlockR::Uniform),
         1 => proptest::collection::vec(any::<u8>(), 0..8).prop_map(BlockR::Lit),
+        6 => (0u8..8, 0u8..16, prop_oneof![2 => 0u16..8, 3 => 0u16..400], -3i8..=3, any::<bool>(), 0u8..3, any::<u64>())
+            .prop_map(|(low_sel, j, k, e, neg, hi_kind, seed)| BlockR::SplitNearMultiple { low_sel, j, k, e, neg, hi_kind, seed }),
     ]
     .boxed()
 }
@@ -207,6 +214,35 @@ pub fn block_bytes(b: &BlockR, n: usize, p: &Z) -> Vec<u8> {
             x % &m
         }
         BlockR::Lit(bytes) => Z::from_bytes_be(bytes) % &m,
+        BlockR::SplitNearMultiple { low_sel, j, k, e, neg, hi_kind, seed } => {
+            let lows = [n / 4, n / 2, 3 * n / 4, n - 8, n - 16, 32, 48, n - 24];
+            let mut low = lows[*low_sel as usize % lows.len()];
+            if low == 0 || low >= n {
+                low = n / 2;
+            }
+            let lo_mod = Z::from(1u32) << (8 * low);
+            let max_j = (&lo_mod - Z::from(1u32)) / p;
+            let jj = std::cmp::min(Z::from(*j as u32), max_j);
+            let base = jj * p;
+            let mag = (Z::from(1u32) << (*k as usize % (8 * low))) + Z::from(e.unsigned_abs() as u32);
+            let mag = if *k == 0 { Z::from(e.unsigned_abs() as u32) } else { mag };
+            let lo = if *neg { if base >= mag { base - mag } else { base } } else { base + mag };
+            let lo = if lo >= lo_mod { &lo_mod - Z::from(1u32) } else { lo };
+            let hi_bits = 8 * (n - low);
+            let hi = match hi_kind % 3 {
+                0 => {
+                    let mut w = Words(*seed);
+                    let mut x = Z::from(0u32);
+                    for _ in 0..(n - low + 7) / 8 {
+                        x = (x << 64) + Z::from(w.next());
+                    }
+                    x % (Z::from(1u32) << hi_bits)
+                }
+                1 => Z::from(0u32),
+                _ => (Z::from(1u32) << hi_bits) - Z::from(1u32),
+            };
+            (hi << (8 * low)) + lo
+        }
     };
     let raw = v.to_bytes_be();
     let mut out = vec![0u8; n - raw.len()];
@@ -232,6 +268,7 @@ pub fn check_okm(c: &OkmCase, info: &mut Info) -> Result<(), String> {
         BlockR::NearMultiple(_, _) => "near-multiple-of-modulus",
         BlockR::Uniform(_) => "uniform",
         BlockR::Lit(_) => "small-literal",
+        BlockR::SplitNearMultiple { .. } => "low-part-near-multiple-of-modulus",
     });
     // Fq: 64 bytes
     let b64 = block_bytes(&c.a, 64, q());
@@ -337,7 +374,7 @@ fn check_h2f(c: &H2fCase, info: &mut Info) -> Result<(), String> {
 pub fn def() -> PropDef {
     PropDef {
         id: "C13",
-        rule: "(expander in {XMD-SHA-256, XMD-SHA-512, XOF-SHAKE128, XOF-SHAKE256 and - the XMD construction being generic in the Merkle-Damgard hash - XMD-SHA-224, XMD-SHA-384, XMD-SHA-512/224, XMD-SHA-512/256, whose digest size is not half the block size}, msg, dst, len) with message lengths 0, 1 and around every SHA-2 / SHAKE block boundary, occasional long messages (<= 20 kB), tags of length 0, 1, 16, 43, 254, 255 and others, lengths k*b+-1 for k up to 255, exact lengths up to 65535, and the must-abort class 255*b+1.. for XMD; 64-/48-/128-byte blocks (zero, all-ones, m*p+-d just around multiples of the modulus, uniform) through from_okm / from_ro; hash_to_field for Fq, Fr, Fq2 with count 0..=8 (occasionally up to 60). Oracle: model expand_message_xmd / _xof and OS2IP mod p written from RFC 9380 section 5. Non-trivial = partial block, block-boundary message, long tag or many blocks (expand); non-zero block; count >= 1; distinct = distinct cases",
+        rule: "(expander in {XMD-SHA-256, XMD-SHA-512, XOF-SHAKE128, XOF-SHAKE256 and - the XMD construction being generic in the Merkle-Damgard hash - XMD-SHA-224, XMD-SHA-384, XMD-SHA-512/224, XMD-SHA-512/256, whose digest size is not half the block size}, msg, dst, len) with message lengths 0, 1 and around every SHA-2 / SHAKE block boundary, occasional long messages (<= 20 kB), tags of length 0, 1, 16, 43, 254, 255 and others, lengths k*b+-1 for k up to 255, exact lengths up to 65535, and the must-abort class 255*b+1.. for XMD; 64-/48-/128-byte blocks (zero, all-ones, m*p+-d just around multiples of the modulus, two-part blocks whose low part - for every plausible split position - is j*p +- (2^k + e), uniform) through from_okm / from_ro; hash_to_field for Fq, Fr, Fq2 with count 0..=8 (occasionally up to 60). Oracle: model expand_message_xmd / _xof and OS2IP mod p written from RFC 9380 section 5. Non-trivial = partial block, block-boundary message, long tag or many blocks (expand); non-zero block; count >= 1; distinct = distinct cases",
         needs_pairing: false,
         subs: vec![
             Box::new(Sub { name: "expand-message", rule: "bytes equal the RFC; requests beyond 255 blocks abort", quick: 60_000, thorough: 250_000, strategy: || boxed(expand_case_strategy()), check: check_expand }),
